@@ -90,7 +90,7 @@ fn run_script(dir: &str, script: &[Value], bid: usize, sch: &Arc<Sched>) -> Vec<
 	sch.next.store(0, Ordering::SeqCst);
 	sch.free.store(false, Ordering::SeqCst);
 	let api: Api = grin_wallet_api::Owner::new(w.inst("w1"), None);
-	let mask = w.mask("w1");
+	let mut mask = w.mask("w1");
 	let mut log = |e: Value, out: &mut Vec<String>| {
 		let mut e = e;
 		e["b"] = json!(bid);
@@ -143,6 +143,20 @@ fn run_script(dir: &str, script: &[Value], bid: usize, sch: &Arc<Sched>) -> Vec<
 			"stop" => {
 				let _ = api.stop_updater();
 				log(json!({"ev": "stop"}), &mut out);
+			}
+			// close_wallet under the parked pass: its next wallet_lock! finds no open wallet
+			"close" => {
+				let r = api.close_wallet(None);
+				log(json!({"ev": "close", "res": if r.is_ok() { "ok" } else { "err" }}), &mut out);
+			}
+			// open_wallet (masked, as the world was set up): later starts use the new token
+			"open" => {
+				let r = api.open_wallet(None, grin_util::ZeroingString::from(""), true);
+				let ok = r.is_ok();
+				if let Ok(m) = r {
+					mask = m;
+				}
+				log(json!({"ev": "open", "res": if ok { "ok" } else { "err" }}), &mut out);
 			}
 			c @ ("pass" | "pass_stop") => {
 				let stop_after = c == "pass_stop";
